@@ -250,7 +250,7 @@ def main():
     for k in ids:
         if k not in impl or k not in model:
             raise Machinery('case %s missing from an output' % k)
-        if byid[k].split(' ', 2)[1:2] == ['T']:
+        if byid[k].split(' ', 2)[1:2] in (['T'], ['S']):
             continue          # concurrent C-API runs: judged by the linearisation monitor, not replayed on the model
         if impl[k] != model[k]:
             diffs.append(k)
